@@ -30,7 +30,9 @@ func AddDeleteChildren(index configapi.Index, changeValues map[string]*configapi
 		// if this pathValue has to be deleted, then we need to search for all children of this pathValue
 		if changeValue.Deleted {
 			for _, value := range configStore {
-				if strings.HasPrefix(value.Path, changeValue.Path) && !strings.EqualFold(value.Path, changeValue.Path) {
+				if strings.HasPrefix(value.Path, changeValue.Path) && !strings.EqualFold(value.Path, changeValue.Path) &&
+					// children continue at a path element boundary; /a/bc is not a child of /a/b
+					(value.Path[len(changeValue.Path)] == '/' || value.Path[len(changeValue.Path)] == '[') {
 					updChangeValues[value.Path] = value
 					updChangeValues[value.Path].Index = index
 					updChangeValues[value.Path].Deleted = true
